@@ -300,6 +300,40 @@ def rkc (checkSafe : Bool) (ws : List String) : Option String := do
     | _ => none
   | _ => none
 
+/-! ### op `rksz`: routing keys of components of given SIZES (boundaries of the [short] length) -/
+
+/-- byte `i` of a generated component: `(fill + i*step) mod 256` -/
+def genBytes (n fill step : Nat) : List UInt8 :=
+  (List.range n).map (fun i => UInt8.ofNat ((fill + i * step) % 256))
+
+/-- a linear fingerprint of a long key (every byte and its position count): `h ← (h * 1000003 + b) mod 2^32` -/
+def polySum (bs : List UInt8) : Nat := bs.foldl (fun h b => (h * 1000003 + b.toNat) % 4294967296) 0
+
+/-- `<b|s><len>.<fill hex>.<step>` -/
+def pSz (w : String) : Option (List UInt8) :=
+  match (w.drop 1).toString.splitOn "." with
+  | [n, f, st] => do
+      let n ← n.toNat?
+      let f ← parseHex f
+      let st ← st.toNat?
+      match f with
+      | [b] => if n ≤ 200000 then some (genBytes n b.toNat st) else none
+      | _ => none
+  | _ => none
+
+/-- rksz <c|q|b> <comp>…: the outcome kind and the key (length, the fingerprint `polySum` of all its bytes, first bytes) of
+    the components in partition-key order, through createRoutingKey / Query.GetRoutingKey / Batch.GetRoutingKey.
+    `rksz` (spec-backed): every component ≤ 65535 bytes; `rkszx`: larger ones too (recorded limitation). -/
+def rksz (strict : Bool) (ws : List String) : Option String :=
+  match ws with
+  | _ :: c :: r => do
+      let cs ← (c :: r).mapM pSz
+      if strict && cs.any (fun c => decide (c.length > 65535)) then some "out-of-range"
+      else
+        let key := if strict then Token.Spec.routingKey cs else Token.routingKey cs
+        some ("key " ++ toString key.length ++ " " ++ toString (polySum key) ++ " " ++ toHex (key.take 4))
+  | _ => none
+
 /-- a canonical decimal int64 token string -/
 def canonInt (s : String) : Option Int :=
   match s.toInt? with
@@ -404,6 +438,8 @@ def stepU (ws : List String) : String :=
       | _, _ => "bad-op"
   | "rkm" :: r => (rkm r).getD "bad-op"
   | "rkmx" :: r => (rkm r).getD "bad-op"
+  | "rksz" :: r => (rksz true r).getD "bad-op"
+  | "rkszx" :: r => (rksz false r).getD "bad-op"
   | "rkc" :: r => (rkc true r).getD "bad-op"
   | "rkcx" :: r => (rkc false r).getD "bad-op"
   | "rkn" :: r => (rkn r).getD "bad-op"
